@@ -72,6 +72,10 @@ pub struct Spec {
     /// (a reused pipeline message) before the first task runs
     #[serde(default)]
     pub stale_targets: bool,
+    /// path "sample": before the typed parse, the same thread has a message rejected by parse_auto
+    /// (1 = unsupported message type in block 2, 2 = damaged block 1) — an earlier failure on this thread
+    #[serde(default)]
+    pub prior_reject: u8,
 }
 
 /// An overlay scenario directory: `<verif>/work/overlay/mtNNN/zz_overlay_only.json` for every type.
@@ -621,7 +625,7 @@ fn judge(sc: &scen::Scenario, d: &Value, out: &mut Outcome) -> Option<Violation>
     None
 }
 
-fn run_sample_typed<T>(sc: &scen::Scenario, overlay: Option<&std::path::PathBuf>, api: u8, out: &mut Outcome)
+fn run_sample_typed<T>(sc: &scen::Scenario, overlay: Option<&std::path::PathBuf>, api: u8, prior_reject: u8, out: &mut Outcome)
 where
     T: SwiftMessageBody + serde::de::DeserializeOwned,
 {
@@ -657,6 +661,13 @@ where
         }
     };
     let text = m.to_mt_message();
+    if prior_reject > 0 {
+        // fault: this thread first sees a message that the auto-detecting parser rejects
+        let garbled = if prior_reject == 1 { text.replacen(&format!("{{2:I{}", sc.mt), "{2:I300", 1) } else { text.replacen("{1:F01", "{1:Q9", 1) };
+        if SwiftParser::parse_auto(&garbled).is_err() {
+            out.count("fault.message.rejected_by_parse_auto_earlier_on_this_thread", 1);
+        }
+    }
     out.content_digest = fnv_str(&text);
     let generated = serde_json::to_value(&m).unwrap_or(Value::Null);
     out.log.push(format!("published {} bytes={}", hex(out.content_digest), text.len()));
@@ -687,8 +698,8 @@ where
     }
 }
 
-fn run_sample(sc: &scen::Scenario, overlay: Option<&std::path::PathBuf>, api: u8, out: &mut Outcome) {
-    with_type!(sc.mt.as_str(), T => run_sample_typed::<T>(sc, overlay, api, out), {
+fn run_sample(sc: &scen::Scenario, overlay: Option<&std::path::PathBuf>, api: u8, prior_reject: u8, out: &mut Outcome) {
+    with_type!(sc.mt.as_str(), T => run_sample_typed::<T>(sc, overlay, api, prior_reject, out), {
         out.harness_error = Some(format!("unknown message type {}", sc.mt));
     })
 }
@@ -768,6 +779,7 @@ impl Engine for C15 {
             overlay: wl.chance(1, 2),
             sample_api: wl.below(3) as u8,
             stale_targets: path == "interleaved" && wl.chance(1, 4),
+            prior_reject: if path == "sample" && wl.chance(1, 3) { 1 + wl.below(2) as u8 } else { 0 },
         }
     }
 
@@ -808,6 +820,7 @@ impl Engine for C15 {
         let diag = spec.diag;
         let overlay_dir = if spec.overlay && spec.path == "sample" { Some(ensure_overlay(&env.scenarios)) } else { None };
         let sample_api = spec.sample_api;
+        let prior_reject = spec.prior_reject;
         // the worker process executes one run at a time, so the process environment is the run's
         match &spec.tz {
             Some(tz) => unsafe { std::env::set_var("TZ", tz) },
@@ -822,7 +835,7 @@ impl Engine for C15 {
             let _ = std::collections::hash_map::RandomState::new();
             with_diag(diag, || {
                 if path == "sample" {
-                    run_sample(&sc, overlay_dir.as_ref(), sample_api, &mut o2)
+                    run_sample(&sc, overlay_dir.as_ref(), sample_api, prior_reject, &mut o2)
                 } else if path == "interleaved" {
                     run_interleaved(&scs, &spec_c, &ctx2, &mut o2)
                 } else {
@@ -916,6 +929,11 @@ impl Engine for C15 {
         if spec.stale_targets {
             let mut s = spec.clone();
             s.stale_targets = false;
+            v.push(s);
+        }
+        if spec.prior_reject > 0 {
+            let mut s = spec.clone();
+            s.prior_reject = 0;
             v.push(s);
         }
         if !spec.in_place.is_empty() {
